@@ -109,7 +109,7 @@ def classify(sess_cfg, pending, label):
         return SKIP
     if label["msg_id"] != pending["msg_id"]:
         return SKIP
-    if label.get("salt_len") is not None or label.get("flags_lie"):
+    if label.get("salt_len") is not None:
         return UNKNOWN
     is_report = label["pdu"] == "report"
     if not is_report and label["request_id"] != pending["request_id"]:
